@@ -643,3 +643,957 @@ impl Model {
         }
     }
 }
+
+// ---------------------------------------------------------------------------------------------
+// tests: every expectation below was worked out by hand from the prose rules
+// ---------------------------------------------------------------------------------------------
+#[cfg(test)]
+mod tests {
+    use super::*;
+    use crate::gen::Bytes;
+
+    // ---- compact notation -------------------------------------------------------------------
+    // program: whitespace separated tokens
+    //   <aabb>            push of the hex bytes (<> pushes the empty string)
+    //   OP_0, OP_1..OP_16, 1NEGATE, DUP, ADD, ...   opcode by name (no OP_ prefix for word names)
+    //   123               opcode by decimal number
+    //   IF( .. )ELSE( .. )   IF( .. )   NOTIF( .. )   VERIF( .. )   VERNOTIF( .. )
+    // stacks: whitespace separated hex items, bottom first; `e` is the empty item
+
+    fn unhex(s: &str) -> Vec<u8> {
+        assert!(s.len() % 2 == 0, "odd hex {:?}", s);
+        (0..s.len() / 2).map(|i| u8::from_str_radix(&s[2 * i..2 * i + 2], 16).expect("hex")).collect()
+    }
+
+    fn hexs(v: &[u8]) -> String {
+        if v.is_empty() {
+            return "e".to_string();
+        }
+        v.iter().map(|b| format!("{:02x}", b)).collect()
+    }
+
+    fn stack_of(s: &str) -> Vec<Vec<u8>> {
+        s.split_whitespace().map(|t| if t == "e" { Vec::new() } else { unhex(t) }).collect()
+    }
+
+    fn show(st: &[Vec<u8>]) -> String {
+        st.iter().map(|x| hexs(x)).collect::<Vec<_>>().join(" ")
+    }
+
+    fn opcode_by_name(t: &str) -> u8 {
+        if let Some(k) = t.strip_prefix("OP_") {
+            let k: u8 = k.parse().expect("OP_<n>");
+            assert!(k <= 16);
+            return if k == 0 { 0 } else { 80 + k };
+        }
+        if let Ok(n) = t.parse::<u16>() {
+            assert!(n <= 255);
+            return n as u8;
+        }
+        match t {
+            "1NEGATE" => 79,
+            "NOP" => 97,
+            "VERIFY" => 105,
+            "RETURN" => 106,
+            "TOALTSTACK" => 107,
+            "FROMALTSTACK" => 108,
+            "2DROP" => 109,
+            "2DUP" => 110,
+            "3DUP" => 111,
+            "2OVER" => 112,
+            "2ROT" => 113,
+            "2SWAP" => 114,
+            "IFDUP" => 115,
+            "DEPTH" => 116,
+            "DROP" => 117,
+            "DUP" => 118,
+            "NIP" => 119,
+            "OVER" => 120,
+            "PICK" => 121,
+            "ROLL" => 122,
+            "ROT" => 123,
+            "SWAP" => 124,
+            "TUCK" => 125,
+            "CAT" => 126,
+            "SPLIT" => 127,
+            "NUM2BIN" => 128,
+            "BIN2NUM" => 129,
+            "SIZE" => 130,
+            "INVERT" => 131,
+            "AND" => 132,
+            "OR" => 133,
+            "XOR" => 134,
+            "EQUAL" => 135,
+            "EQUALVERIFY" => 136,
+            "1ADD" => 139,
+            "1SUB" => 140,
+            "NEGATE" => 143,
+            "ABS" => 144,
+            "NOT" => 145,
+            "0NOTEQUAL" => 146,
+            "ADD" => 147,
+            "SUB" => 148,
+            "MUL" => 149,
+            "DIV" => 150,
+            "MOD" => 151,
+            "LSHIFT" => 152,
+            "RSHIFT" => 153,
+            "BOOLAND" => 154,
+            "BOOLOR" => 155,
+            "NUMEQUAL" => 156,
+            "NUMEQUALVERIFY" => 157,
+            "NUMNOTEQUAL" => 158,
+            "LESSTHAN" => 159,
+            "GREATERTHAN" => 160,
+            "LESSTHANOREQUAL" => 161,
+            "GREATERTHANOREQUAL" => 162,
+            "MIN" => 163,
+            "MAX" => 164,
+            "WITHIN" => 165,
+            "RIPEMD160" => 166,
+            "SHA1" => 167,
+            "SHA256" => 168,
+            "HASH160" => 169,
+            "HASH256" => 170,
+            "CODESEPARATOR" => 171,
+            _ => panic!("unknown token {:?}", t),
+        }
+    }
+
+    /// parses elements until `)` / `)ELSE(` / end of input; returns the terminator seen
+    fn parse_seq<'a>(toks: &[&'a str], pos: &mut usize) -> (Vec<El>, Option<&'a str>) {
+        let mut out = Vec::new();
+        while *pos < toks.len() {
+            let t = toks[*pos];
+            *pos += 1;
+            match t {
+                ")" | ")ELSE(" => return (out, Some(t)),
+                "IF(" | "NOTIF(" | "VERIF(" | "VERNOTIF(" => {
+                    let code = match t {
+                        "IF(" => 99,
+                        "NOTIF(" => 100,
+                        "VERIF(" => 101,
+                        _ => 102,
+                    };
+                    let (pass, term) = parse_seq(toks, pos);
+                    let fail = match term {
+                        Some(")ELSE(") => {
+                            let (f, term2) = parse_seq(toks, pos);
+                            assert_eq!(term2, Some(")"));
+                            Some(f)
+                        }
+                        Some(")") => None,
+                        _ => panic!("unterminated conditional"),
+                    };
+                    out.push(El::If { code, pass, fail });
+                }
+                _ if t.starts_with('<') && t.ends_with('>') => {
+                    out.push(El::Push(0, Bytes::Lit(unhex(&t[1..t.len() - 1]))));
+                }
+                _ => out.push(El::Op(opcode_by_name(t))),
+            }
+        }
+        (out, None)
+    }
+
+    fn prog(s: &str) -> Vec<El> {
+        let toks: Vec<&str> = s.split_whitespace().collect();
+        let mut pos = 0;
+        let (els, term) = parse_seq(&toks, &mut pos);
+        assert_eq!(term, None, "stray terminator in {:?}", s);
+        els
+    }
+
+    #[derive(Debug, Clone, Copy, PartialEq, Eq)]
+    enum Kind {
+        Ok,
+        Fail,
+        Unm,
+    }
+
+    /// program, initial stack, initial alt, expected kind of the LAST step taken (all earlier steps
+    /// must be Ok), expected stack and alt afterwards (for Fail / Unm: as they were before that step)
+    struct Row {
+        p: &'static str,
+        s: &'static str,
+        a: &'static str,
+        k: Kind,
+        es: &'static str,
+        ea: &'static str,
+    }
+
+    fn ok(p: &'static str, s: &'static str, es: &'static str) -> Row {
+        Row { p, s, a: "", k: Kind::Ok, es, ea: "" }
+    }
+    fn ok_alt(p: &'static str, s: &'static str, a: &'static str, es: &'static str, ea: &'static str) -> Row {
+        Row { p, s, a, k: Kind::Ok, es, ea }
+    }
+    /// the (single) element fails on stack `s`, which is left as it was
+    fn fail(p: &'static str, s: &'static str) -> Row {
+        Row { p, s, a: "", k: Kind::Fail, es: s, ea: "" }
+    }
+    /// a later element fails; `es` is the stack just before it
+    fn fail_to(p: &'static str, s: &'static str, es: &'static str) -> Row {
+        Row { p, s, a: "", k: Kind::Fail, es, ea: "" }
+    }
+    fn fail_alt(p: &'static str, s: &'static str, a: &'static str) -> Row {
+        Row { p, s, a, k: Kind::Fail, es: s, ea: a }
+    }
+    fn unm(p: &'static str, s: &'static str) -> Row {
+        Row { p, s, a: "", k: Kind::Unm, es: s, ea: "" }
+    }
+
+    fn kind_of(r: &StepResult) -> Kind {
+        match r {
+            StepResult::Ok => Kind::Ok,
+            StepResult::Fail(_) => Kind::Fail,
+            StepResult::Unmodelled(_) => Kind::Unm,
+        }
+    }
+
+    /// runs to the end or to the first non-Ok step
+    fn run(m: &mut Model) -> StepResult {
+        let mut last = StepResult::Ok;
+        let mut guard = 0;
+        while !m.done() {
+            last = m.step();
+            if last != StepResult::Ok {
+                break;
+            }
+            guard += 1;
+            assert!(guard < 10_000);
+        }
+        last
+    }
+
+    fn check_rows(rows: &[Row]) {
+        let mut bad = Vec::new();
+        for (i, r) in rows.iter().enumerate() {
+            let mut m = Model::with_stacks(&prog(r.p), stack_of(r.s), stack_of(r.a));
+            let res = run(&mut m);
+            let good = kind_of(&res) == r.k && m.stack == stack_of(r.es) && m.alt == stack_of(r.ea);
+            if !good {
+                bad.push(format!(
+                    "row {} [{}] on [{}] alt [{}]: expected {:?} [{}] alt [{}], got {:?} [{}] alt [{}]",
+                    i, r.p, r.s, r.a, r.k, r.es, r.ea, res, show(&m.stack), show(&m.alt)
+                ));
+            }
+        }
+        assert!(bad.is_empty(), "{} bad rows:\n{}", bad.len(), bad.join("\n"));
+    }
+
+    // ---- the table ---------------------------------------------------------------------------
+
+    fn rows_stack_ops() -> Vec<Row> {
+        vec![
+            // pushes and constants
+            ok("<aabb>", "", "aabb"),
+            ok("<>", "", "e"),
+            ok("<00>", "cc", "cc 00"),
+            ok("OP_0", "01", "01 e"),
+            ok("1NEGATE", "", "81"),
+            ok("OP_1", "", "01"),
+            ok("OP_2", "", "02"),
+            ok("90", "", "0a"),
+            ok("OP_16", "", "10"),
+            // no-ops
+            ok("NOP", "aa", "aa"),
+            ok("176", "aa", "aa"),
+            ok("179", "aa", "aa"),
+            ok("180", "", ""),
+            ok("181", "aa bb", "aa bb"),
+            ok("182", "aa", "aa"),
+            ok("183", "aa", "aa"),
+            ok("184", "aa", "aa"),
+            ok("185", "", ""),
+            ok("CODESEPARATOR", "aa", "aa"),
+            // VERIFY
+            ok("VERIFY", "aa 01", "aa"),
+            ok("VERIFY", "0000000001", ""),
+            fail("VERIFY", "aa e"),
+            fail("VERIFY", "80"),
+            fail("VERIFY", "000080"),
+            fail("VERIFY", ""),
+            fail_to("OP_1 OP_0 VERIFY", "", "01 e"),
+            fail_to("OP_1 OP_2 ADD VERIFY DROP", "", ""),
+            // RETURN
+            ok("RETURN OP_1", "aa", "aa"),
+            ok("RETURN", "", ""),
+            ok("OP_5 RETURN VERIFY VERIFY VERIFY", "", "05"),
+            // alt stack
+            ok_alt("TOALTSTACK", "aa bb", "cc", "aa", "cc bb"),
+            ok_alt("FROMALTSTACK", "aa", "cc dd", "aa dd", "cc"),
+            ok("TOALTSTACK FROMALTSTACK", "aa bb", "aa bb"),
+            ok_alt("TOALTSTACK TOALTSTACK", "aa bb", "", "", "bb aa"),
+            fail("TOALTSTACK", ""),
+            fail_alt("FROMALTSTACK", "aa", ""),
+            fail_alt("TOALTSTACK", "", "cc"),
+            // 2DROP 2DUP 3DUP 2OVER 2ROT 2SWAP
+            ok("2DROP", "aa bb cc", "aa"),
+            fail("2DROP", "aa"),
+            fail("2DROP", ""),
+            ok("2DUP", "aa bb", "aa bb aa bb"),
+            fail("2DUP", "aa"),
+            ok("3DUP", "aa bb cc", "aa bb cc aa bb cc"),
+            fail("3DUP", "aa bb"),
+            ok("2OVER", "aa bb cc dd", "aa bb cc dd aa bb"),
+            ok("2OVER", "99 aa bb cc dd", "99 aa bb cc dd aa bb"),
+            fail("2OVER", "aa bb cc"),
+            ok("2ROT", "aa bb cc dd ee ff", "cc dd ee ff aa bb"),
+            ok("2ROT", "00 aa bb cc dd ee ff", "00 cc dd ee ff aa bb"),
+            fail("2ROT", "aa bb cc dd ee"),
+            ok("2SWAP", "aa bb cc dd", "cc dd aa bb"),
+            ok("2SWAP", "99 aa bb cc dd", "99 cc dd aa bb"),
+            fail("2SWAP", "aa bb cc"),
+            // IFDUP
+            ok("IFDUP", "01", "01 01"),
+            ok("IFDUP", "0081", "0081 0081"),
+            ok("IFDUP", "e", "e"),
+            ok("IFDUP", "80", "80"),
+            ok("IFDUP", "0000", "0000"),
+            fail("IFDUP", ""),
+            // DEPTH
+            ok("DEPTH", "", "e"),
+            ok("DEPTH", "aa bb", "aa bb 02"),
+            ok("DEPTH DEPTH", "aa", "aa 01 02"),
+            // DROP DUP NIP OVER ROT SWAP TUCK
+            ok("DROP", "aa bb", "aa"),
+            fail("DROP", ""),
+            ok("DUP", "aa", "aa aa"),
+            fail("DUP", ""),
+            ok("NIP", "aa bb", "bb"),
+            ok("NIP", "aa bb cc", "aa cc"),
+            fail("NIP", "aa"),
+            ok("OVER", "aa bb", "aa bb aa"),
+            fail("OVER", "aa"),
+            ok("ROT", "aa bb cc", "bb cc aa"),
+            ok("ROT", "99 aa bb cc", "99 bb cc aa"),
+            fail("ROT", "aa bb"),
+            ok("SWAP", "aa bb", "bb aa"),
+            fail("SWAP", "aa"),
+            ok("TUCK", "aa bb", "bb aa bb"),
+            ok("TUCK", "99 aa bb", "99 bb aa bb"),
+            fail("TUCK", "aa"),
+            // PICK
+            ok("PICK", "aa bb cc e", "aa bb cc cc"),
+            ok("PICK", "aa bb cc 01", "aa bb cc bb"),
+            ok("PICK", "aa bb cc 02", "aa bb cc aa"),
+            ok("PICK", "aa 00", "aa aa"),
+            ok("PICK", "aa bb 01000000", "aa bb aa"),
+            fail("PICK", "aa bb cc 03"),
+            fail("PICK", "aa bb cc 81"),
+            fail("PICK", "e"),
+            fail("PICK", ""),
+            unm("PICK", "aa 0000000000"),
+            // ROLL
+            ok("ROLL", "aa bb cc e", "aa bb cc"),
+            ok("ROLL", "aa bb cc 01", "aa cc bb"),
+            ok("ROLL", "aa bb cc 02", "bb cc aa"),
+            ok("ROLL", "aa bb 0100", "bb aa"),
+            fail("ROLL", "aa bb cc 03"),
+            fail("ROLL", "aa bb cc 81"),
+            fail("ROLL", "01"),
+            fail("ROLL", ""),
+            unm("ROLL", "aa 0000000000"),
+        ]
+    }
+
+    fn rows_bytes() -> Vec<Row> {
+        vec![
+            // CAT
+            ok("CAT", "aa bb", "aabb"),
+            ok("CAT", "e e", "e"),
+            ok("CAT", "aa e", "aa"),
+            ok("CAT", "e 0102", "0102"),
+            fail("CAT", "aa"),
+            fail("CAT", ""),
+            // SPLIT
+            ok("SPLIT", "aabbcc 01", "aa bbcc"),
+            ok("SPLIT", "aabbcc 02", "aabb cc"),
+            ok("SPLIT", "aabbcc e", "e aabbcc"),
+            ok("SPLIT", "aabbcc 03", "aabbcc e"),
+            ok("SPLIT", "e e", "e e"),
+            ok("SPLIT", "aabbcc 0100", "aa bbcc"),
+            fail("SPLIT", "aabbcc 04"),
+            fail("SPLIT", "aabbcc 81"),
+            fail("SPLIT", "e 01"),
+            fail("SPLIT", "aa"),
+            fail("SPLIT", ""),
+            unm("SPLIT", "aabb 0100000000"),
+            // NUM2BIN
+            ok("NUM2BIN", "02 04", "02000000"),
+            ok("NUM2BIN", "82 04", "02000080"),
+            ok("NUM2BIN", "8000 02", "8000"),
+            ok("NUM2BIN", "8000 03", "800000"),
+            ok("NUM2BIN", "8080 03", "800080"),
+            ok("NUM2BIN", "e e", "e"),
+            ok("NUM2BIN", "e 03", "000000"),
+            ok("NUM2BIN", "0100 01", "01"),
+            ok("NUM2BIN", "81 01", "81"),
+            ok("NUM2BIN", "0080 02", "0000"),
+            ok("NUM2BIN", "000080 e", "e"),
+            ok("NUM2BIN", "7f 02", "7f00"),
+            ok("NUM2BIN", "ff 02", "7f80"),
+            fail("NUM2BIN", "ff00 01"),
+            fail("NUM2BIN", "01 e"),
+            fail("NUM2BIN", "01 81"),
+            fail("NUM2BIN", "01"),
+            fail("NUM2BIN", ""),
+            unm("NUM2BIN", "01 0500000000"),
+            // BIN2NUM
+            ok("BIN2NUM", "0100", "01"),
+            ok("BIN2NUM", "0080", "e"),
+            ok("BIN2NUM", "ffff80", "ffff80"),
+            ok("BIN2NUM", "ff00", "ff00"),
+            ok("BIN2NUM", "e", "e"),
+            ok("BIN2NUM", "00000080", "e"),
+            ok("BIN2NUM", "010080", "81"),
+            ok("BIN2NUM", "ff000000", "ff00"),
+            ok("BIN2NUM", "7f0080", "ff"),
+            fail("BIN2NUM", ""),
+            // SIZE
+            ok("SIZE", "aabbcc", "aabbcc 03"),
+            ok("SIZE", "e", "e e"),
+            fail("SIZE", ""),
+            // INVERT
+            ok("INVERT", "00ff0f", "ff00f0"),
+            ok("INVERT", "e", "e"),
+            fail("INVERT", ""),
+            // AND OR XOR
+            ok("AND", "0f33 ff0f", "0f03"),
+            ok("AND", "e e", "e"),
+            ok("OR", "0f30 f003", "ff33"),
+            ok("XOR", "ff0f 0fff", "f0f0"),
+            ok("XOR", "cc aa aa", "cc 00"),
+            fail("AND", "aa bbcc"),
+            fail("OR", "aabb cc"),
+            fail("XOR", "aa e"),
+            fail("AND", "aa"),
+            fail("OR", "aa"),
+            fail("XOR", ""),
+            // EQUAL EQUALVERIFY
+            ok("EQUAL", "aa aa", "01"),
+            ok("EQUAL", "aa ab", "e"),
+            ok("EQUAL", "01 0100", "e"),
+            ok("EQUAL", "e e", "01"),
+            fail("EQUAL", "aa"),
+            ok("EQUALVERIFY", "cc aa aa", "cc"),
+            fail("EQUALVERIFY", "aa ab"),
+            fail("EQUALVERIFY", "01 0100"),
+            fail("EQUALVERIFY", "aa"),
+            fail("EQUALVERIFY", ""),
+            // hashes
+            ok("SHA256", "e", "e3b0c44298fc1c149afbf4c8996fb92427ae41e4649b934ca495991b7852b855"),
+            ok("RIPEMD160", "e", "9c1185a5c5e9fc54612808977ee8f548b2258d31"),
+            ok("SHA1", "e", "da39a3ee5e6b4b0d3255bfef95601890afd80709"),
+            ok("HASH160", "e", "b472a266d0bd89c13706a4132ccfb16f7c3b9fcb"),
+            ok("HASH256", "e", "5df6e0e2761359d30a8275058e299fcc0381534545f55cf43e41983f5d4c9456"),
+            ok("SHA256", "cc 616263", "cc ba7816bf8f01cfea414140de5dae2223b00361a396177a9cb410ff61f20015ad"),
+            ok("SHA1", "616263", "a9993e364706816aba3e25717850c26c9cd0d89d"),
+            ok("RIPEMD160", "616263", "8eb208f7e05d987a9b044a8e98c6b087f15a0bfc"),
+            fail("RIPEMD160", ""),
+            fail("SHA1", ""),
+            fail("SHA256", ""),
+            fail("HASH160", ""),
+            fail("HASH256", ""),
+        ]
+    }
+
+    fn rows_arith() -> Vec<Row> {
+        vec![
+            // 1ADD 1SUB NEGATE ABS NOT 0NOTEQUAL
+            ok("1ADD", "01", "02"),
+            ok("1ADD", "ff7f", "008000"),
+            ok("1ADD", "81", "e"),
+            ok("1ADD", "e", "01"),
+            ok("1ADD", "0100", "02"),
+            ok("1ADD", "7f", "8000"),
+            fail("1ADD", ""),
+            ok("1SUB", "01", "e"),
+            ok("1SUB", "e", "81"),
+            ok("1SUB", "8000", "7f"),
+            ok("1SUB", "ff", "8080"),
+            fail("1SUB", ""),
+            ok("NEGATE", "80", "e"),
+            ok("NEGATE", "01", "81"),
+            ok("NEGATE", "81", "01"),
+            ok("NEGATE", "8000", "8080"),
+            fail("NEGATE", ""),
+            ok("ABS", "8080", "8000"),
+            ok("ABS", "05", "05"),
+            ok("ABS", "85", "05"),
+            ok("ABS", "e", "e"),
+            fail("ABS", ""),
+            ok("NOT", "e", "01"),
+            ok("NOT", "01", "e"),
+            ok("NOT", "80", "01"),
+            ok("NOT", "05", "e"),
+            ok("NOT", "0000", "01"),
+            fail("NOT", ""),
+            ok("0NOTEQUAL", "e", "e"),
+            ok("0NOTEQUAL", "05", "01"),
+            ok("0NOTEQUAL", "85", "01"),
+            ok("0NOTEQUAL", "0080", "e"),
+            fail("0NOTEQUAL", ""),
+            // ADD SUB MUL
+            ok("ADD", "7f 01", "8000"),
+            ok("ADD", "81 01", "e"),
+            ok("ADD", "0100 0100", "02"),
+            ok("ADD", "ffffffff7f 01", "000000008000"),
+            ok("ADD", "cc 02 03", "cc 05"),
+            fail("ADD", "01"),
+            fail("ADD", ""),
+            ok("SUB", "05 03", "02"),
+            ok("SUB", "03 05", "82"),
+            ok("SUB", "e 8000", "8080"),
+            fail("SUB", "01"),
+            ok("MUL", "02 03", "06"),
+            ok("MUL", "82 03", "86"),
+            ok("MUL", "82 83", "06"),
+            ok("MUL", "e 05", "e"),
+            ok("MUL", "0000000001 0100000001", "000000000100000001"),
+            ok("MUL", "0000000081 0000000001", "000000000000000081"),
+            ok("MUL", "ffffffff00 ffffffff00", "01000000feffffff00"),
+            fail("MUL", "01"),
+            // DIV MOD
+            ok("DIV", "07 02", "03"),
+            ok("DIV", "87 02", "83"),
+            ok("DIV", "07 82", "83"),
+            ok("DIV", "87 82", "03"),
+            ok("DIV", "01 02", "e"),
+            ok("DIV", "0001 10", "10"),
+            fail("DIV", "07 e"),
+            fail("DIV", "07 80"),
+            fail("DIV", "07 0000"),
+            fail("DIV", "07"),
+            ok("MOD", "07 02", "01"),
+            ok("MOD", "87 02", "81"),
+            ok("MOD", "07 82", "01"),
+            ok("MOD", "87 82", "81"),
+            ok("MOD", "06 03", "e"),
+            fail("MOD", "07 e"),
+            fail("MOD", "07 0080"),
+            fail("MOD", "07"),
+            // LSHIFT RSHIFT
+            ok("LSHIFT", "01 01", "02"),
+            ok("LSHIFT", "0080 01", "0100"),
+            ok("LSHIFT", "8001 01", "0002"),
+            ok("LSHIFT", "a5 e", "a5"),
+            ok("LSHIFT", "ffff 10", "0000"),
+            ok("LSHIFT", "ffff 11", "0000"),
+            ok("LSHIFT", "ffff 0f", "8000"),
+            ok("LSHIFT", "ff00 04", "f000"),
+            ok("LSHIFT", "0001 08", "0100"),
+            ok("LSHIFT", "123456 0c", "456000"),
+            ok("LSHIFT", "01 0100", "02"),
+            ok("LSHIFT", "e 05", "e"),
+            ok("LSHIFT", "01 ffffff7f", "00"),
+            fail("LSHIFT", "01 81"),
+            fail("LSHIFT", "01"),
+            fail("LSHIFT", ""),
+            unm("LSHIFT", "01 0100000000"),
+            ok("RSHIFT", "80 01", "40"),
+            ok("RSHIFT", "ff00 04", "0ff0"),
+            ok("RSHIFT", "a5 e", "a5"),
+            ok("RSHIFT", "ffff 10", "0000"),
+            ok("RSHIFT", "ffff 0f", "0001"),
+            ok("RSHIFT", "01 01", "00"),
+            ok("RSHIFT", "0100 01", "0080"),
+            ok("RSHIFT", "123456 0c", "000123"),
+            ok("RSHIFT", "e 01", "e"),
+            fail("RSHIFT", "01 81"),
+            fail("RSHIFT", "01"),
+            unm("RSHIFT", "01 0100000000"),
+            // BOOLAND BOOLOR
+            ok("BOOLAND", "01 01", "01"),
+            ok("BOOLAND", "01 e", "e"),
+            ok("BOOLAND", "e 01", "e"),
+            ok("BOOLAND", "05 80", "e"),
+            ok("BOOLAND", "85 0001", "01"),
+            fail("BOOLAND", "01"),
+            ok("BOOLOR", "e e", "e"),
+            ok("BOOLOR", "e 01", "01"),
+            ok("BOOLOR", "05 e", "01"),
+            ok("BOOLOR", "80 0000", "e"),
+            fail("BOOLOR", "01"),
+            // comparisons
+            ok("NUMEQUAL", "01 0100", "01"),
+            ok("NUMEQUAL", "01 02", "e"),
+            ok("NUMEQUAL", "80 e", "01"),
+            fail("NUMEQUAL", "01"),
+            ok("NUMEQUALVERIFY", "cc 01 0100", "cc"),
+            fail("NUMEQUALVERIFY", "01 02"),
+            fail("NUMEQUALVERIFY", "01"),
+            ok("NUMNOTEQUAL", "01 02", "01"),
+            ok("NUMNOTEQUAL", "01 0100", "e"),
+            fail("NUMNOTEQUAL", "01"),
+            ok("LESSTHAN", "01 02", "01"),
+            ok("LESSTHAN", "02 01", "e"),
+            ok("LESSTHAN", "01 01", "e"),
+            ok("LESSTHAN", "81 e", "01"),
+            fail("LESSTHAN", "01"),
+            ok("GREATERTHAN", "01 02", "e"),
+            ok("GREATERTHAN", "02 01", "01"),
+            ok("GREATERTHAN", "01 01", "e"),
+            fail("GREATERTHAN", "01"),
+            ok("LESSTHANOREQUAL", "01 01", "01"),
+            ok("LESSTHANOREQUAL", "01 02", "01"),
+            ok("LESSTHANOREQUAL", "02 01", "e"),
+            fail("LESSTHANOREQUAL", "01"),
+            ok("GREATERTHANOREQUAL", "01 01", "01"),
+            ok("GREATERTHANOREQUAL", "02 01", "01"),
+            ok("GREATERTHANOREQUAL", "01 02", "e"),
+            fail("GREATERTHANOREQUAL", "01"),
+            // MIN MAX WITHIN
+            ok("MIN", "01 02", "01"),
+            ok("MIN", "02 01", "01"),
+            ok("MIN", "81 01", "81"),
+            ok("MIN", "0100 02", "01"),
+            fail("MIN", "01"),
+            ok("MAX", "01 02", "02"),
+            ok("MAX", "02 01", "02"),
+            ok("MAX", "81 82", "81"),
+            ok("MAX", "e 0080", "e"),
+            fail("MAX", "01"),
+            ok("WITHIN", "01 01 02", "01"),
+            ok("WITHIN", "02 01 02", "e"),
+            ok("WITHIN", "e 01 02", "e"),
+            ok("WITHIN", "81 82 01", "01"),
+            ok("WITHIN", "cc 05 e 0a", "cc 01"),
+            fail("WITHIN", "01 02"),
+            fail("WITHIN", "01"),
+            fail("WITHIN", ""),
+        ]
+    }
+
+    fn rows_cond() -> Vec<Row> {
+        vec![
+            // truthiness through IF
+            ok("IF( OP_2 )ELSE( OP_3 )", "01", "02"),
+            ok("IF( OP_2 )ELSE( OP_3 )", "e", "03"),
+            ok("IF( OP_2 )ELSE( OP_3 )", "80", "03"),
+            ok("IF( OP_2 )ELSE( OP_3 )", "0080", "03"),
+            ok("IF( OP_2 )ELSE( OP_3 )", "0000", "03"),
+            ok("IF( OP_2 )ELSE( OP_3 )", "000001", "02"),
+            ok("IF( OP_2 )ELSE( OP_3 )", "81", "02"),
+            ok("IF( OP_2 )ELSE( OP_3 )", "8000", "02"),
+            ok("IF( OP_2 )ELSE( OP_3 )", "00112233445566778899", "02"),
+            ok("IF( OP_2 )ELSE( OP_3 )", "cc 02", "cc 02"),
+            // NOTIF mirrored
+            ok("NOTIF( OP_2 )ELSE( OP_3 )", "01", "03"),
+            ok("NOTIF( OP_2 )ELSE( OP_3 )", "e", "02"),
+            ok("NOTIF( OP_2 )ELSE( OP_3 )", "80", "02"),
+            ok("NOTIF( OP_2 )ELSE( OP_3 )", "0080", "02"),
+            ok("NOTIF( OP_2 )ELSE( OP_3 )", "0000", "02"),
+            ok("NOTIF( OP_2 )ELSE( OP_3 )", "000001", "03"),
+            ok("NOTIF( OP_2 )ELSE( OP_3 )", "81", "03"),
+            ok("NOTIF( OP_2 )ELSE( OP_3 )", "00112233445566778899", "03"),
+            // missing else branch
+            ok("IF( OP_2 ) OP_5", "e", "05"),
+            ok("IF( OP_2 ) OP_5", "01", "02 05"),
+            ok("NOTIF( OP_2 ) OP_5", "01", "05"),
+            ok("NOTIF( OP_2 ) OP_5", "e", "02 05"),
+            // empty branches
+            ok("IF( )ELSE( ) OP_5", "01", "05"),
+            ok("IF( )ELSE( ) OP_5", "e", "05"),
+            // nesting, with following elements running afterwards
+            ok("IF( OP_1 IF( OP_7 )ELSE( OP_8 ) OP_9 )ELSE( OP_10 ) OP_11", "01", "07 09 0b"),
+            ok("IF( OP_1 IF( OP_7 )ELSE( OP_8 ) OP_9 )ELSE( OP_10 ) OP_11", "e", "0a 0b"),
+            ok("IF( OP_0 IF( OP_7 )ELSE( OP_8 ) OP_9 ) OP_11", "01", "08 09 0b"),
+            ok("IF( OP_2 )ELSE( OP_0 NOTIF( OP_6 ) ) OP_12", "e", "06 0c"),
+            ok("IF( IF( IF( OP_3 ) OP_4 ) OP_5 ) OP_6", "01 01 01", "03 04 05 06"),
+            ok("IF( IF( IF( OP_3 ) OP_4 ) OP_5 ) OP_6", "01 e 01", "01 05 06"),
+            ok("OP_1 IF( OP_2 OP_3 ADD )ELSE( OP_9 ) DUP MUL", "", "19"),
+            // the condition is consumed from the data the branch then works on
+            ok("IF( ADD )ELSE( SUB )", "05 03 01", "08"),
+            ok("IF( ADD )ELSE( SUB )", "05 03 e", "02"),
+            // failures
+            fail("IF( OP_2 )", ""),
+            fail("NOTIF( OP_2 )ELSE( OP_3 )", ""),
+            fail_to("OP_1 IF( OP_0 VERIFY OP_5 ) OP_6", "", "e"),
+            fail_to("OP_0 IF( OP_5 )ELSE( DROP ) OP_6", "", ""),
+            // RETURN inside branches
+            ok("IF( RETURN OP_2 ) OP_3", "aa 01", "aa"),
+            ok("IF( RETURN )ELSE( OP_4 ) OP_3", "e", "04 03"),
+            ok("IF( OP_4 )ELSE( OP_7 RETURN VERIFY ) OP_0 VERIFY", "e", "07"),
+            // VERIF / VERNOTIF are outside the model
+            unm("VERIF( OP_2 )", "01"),
+            unm("VERNOTIF( OP_2 )ELSE( OP_3 )", "01"),
+        ]
+    }
+
+    fn rows_unmodelled() -> Vec<Row> {
+        vec![
+            unm("141", "01 02"),
+            unm("142", "01 02"),
+            unm("177", "01 02"),
+            unm("178", "01 02"),
+            unm("98", "01 02"),
+            unm("80", "01 02"),
+            unm("137", "01 02"),
+            unm("138", "01 02"),
+            unm("172", "01 02"),
+            unm("173", "01 02"),
+            unm("174", "01 02"),
+            unm("175", "01 02"),
+            unm("186", "01 02"),
+            unm("251", "01 02"),
+            unm("255", "01 02"),
+            unm("99", "01"),
+            unm("100", "01"),
+            unm("101", "01"),
+            unm("102", "01"),
+            unm("103", "01"),
+            unm("104", "01"),
+            unm("76", "01"),
+            unm("77", "01"),
+            unm("78", "01"),
+            unm("1", "01"),
+            unm("75", "01"),
+            Row { p: "OP_7 141 OP_8", s: "cc", a: "dd", k: Kind::Unm, es: "cc 07", ea: "dd" },
+        ]
+    }
+
+    fn all_rows() -> Vec<Row> {
+        let mut v = rows_stack_ops();
+        v.extend(rows_bytes());
+        v.extend(rows_arith());
+        v.extend(rows_cond());
+        v.extend(rows_unmodelled());
+        v
+    }
+
+    #[test]
+    fn table() {
+        let rows = all_rows();
+        assert!(rows.len() >= 150, "only {} rows", rows.len());
+        println!("interp_model table rows: {}", rows.len());
+        check_rows(&rows);
+    }
+
+    /// every modelled opcode has at least one Ok row in which it is the only element, and every
+    /// opcode is classified consistently by is_modelled / apply_opcode
+    #[test]
+    fn table_covers_every_modelled_opcode() {
+        let mut seen = [false; 256];
+        for r in all_rows() {
+            if r.k != Kind::Ok {
+                continue;
+            }
+            fn mark(els: &[El], seen: &mut [bool; 256]) {
+                for e in els {
+                    match e {
+                        El::Op(b) => seen[*b as usize] = true,
+                        El::Push(..) => {}
+                        El::If { pass, fail, .. } => {
+                            mark(pass, seen);
+                            if let Some(f) = fail {
+                                mark(f, seen);
+                            }
+                        }
+                    }
+                }
+            }
+            mark(&prog(r.p), &mut seen);
+        }
+        // OP_3..OP_15 are one rule (push k); the table spells out several of them, the rest here
+        for op in 81..=96u8 {
+            let (mut s, mut a) = (vec![vec![0xcc]], vec![]);
+            assert_eq!(apply_opcode(op, &mut s, &mut a), StepResult::Ok);
+            assert_eq!(s, vec![vec![0xcc], vec![op - 80]]);
+            assert!(a.is_empty());
+            seen[op as usize] = true;
+        }
+        for op in 0..=255u8 {
+            if is_modelled(op) {
+                assert!(seen[op as usize], "modelled opcode {} has no success row", op);
+            } else {
+                let (mut s, mut a) = (stack_of("01 02 03 04 05 06"), stack_of("07"));
+                let r = apply_opcode(op, &mut s, &mut a);
+                assert_eq!(kind_of(&r), Kind::Unm, "opcode {}", op);
+                assert_eq!(s, stack_of("01 02 03 04 05 06"));
+                assert_eq!(a, stack_of("07"));
+            }
+        }
+        // and a modelled opcode is never Unmodelled on small operands
+        for op in 0..=255u8 {
+            if is_modelled(op) {
+                for depth in 0..=6 {
+                    let mut s: Vec<Vec<u8>> = (0..depth).map(|_| vec![0x01]).collect();
+                    let mut a = vec![vec![0x01]];
+                    let r = apply_opcode(op, &mut s, &mut a);
+                    assert_ne!(kind_of(&r), Kind::Unm, "opcode {} depth {}", op, depth);
+                }
+            }
+        }
+    }
+
+    #[test]
+    fn number_codec() {
+        let n = |v: i64| BigInt::from(v);
+        // decoding
+        assert_eq!(num(&unhex("")), n(0));
+        assert_eq!(num(&unhex("80")), n(0));
+        assert_eq!(num(&unhex("0080")), n(0));
+        assert_eq!(num(&unhex("0100")), n(1));
+        assert_eq!(num(&unhex("01")), n(1));
+        assert_eq!(num(&unhex("81")), n(-1));
+        assert_eq!(num(&unhex("7f")), n(127));
+        assert_eq!(num(&unhex("8000")), n(128));
+        assert_eq!(num(&unhex("8080")), n(-128));
+        assert_eq!(num(&unhex("ff00")), n(255));
+        assert_eq!(num(&unhex("0001")), n(256));
+        assert_eq!(num(&unhex("ffff80")), n(-65535));
+        assert_eq!(num(&unhex("ffffffff7f")), n(0x7f_ffff_ffff));
+        assert_eq!(num(&unhex("000000000000000081")), -(BigInt::from(1u8) << 64usize));
+        // encoding
+        assert_eq!(enc(&n(0)), unhex(""));
+        assert_eq!(enc(&n(1)), unhex("01"));
+        assert_eq!(enc(&n(-1)), unhex("81"));
+        assert_eq!(enc(&n(127)), unhex("7f"));
+        assert_eq!(enc(&n(-127)), unhex("ff"));
+        assert_eq!(enc(&n(128)), unhex("8000"));
+        assert_eq!(enc(&n(-128)), unhex("8080"));
+        assert_eq!(enc(&n(255)), unhex("ff00"));
+        assert_eq!(enc(&n(-255)), unhex("ff80"));
+        assert_eq!(enc(&n(256)), unhex("0001"));
+        assert_eq!(enc(&n(32768)), unhex("008000"));
+        assert_eq!(enc(&(BigInt::from(1u8) << 64usize)), unhex("000000000000000001"));
+        // enc is a right inverse of num on a small range
+        for v in -70000i64..=70000 {
+            assert_eq!(num(&enc(&n(v))), n(v));
+        }
+    }
+
+    #[test]
+    fn truthiness() {
+        for f in ["", "00", "80", "0000", "0080", "000000000000000080", "00000000000000000000"] {
+            assert!(!truthy(&unhex(f)), "{:?}", f);
+        }
+        for t in ["01", "81", "8000", "0081", "000001", "00112233445566778899", "800080", "0100", "ff"] {
+            assert!(truthy(&unhex(t)), "{:?}", t);
+        }
+    }
+
+    #[test]
+    fn failing_step_changes_nothing() {
+        // elements 0 and 1 run, element 2 (EQUALVERIFY on 01, 02) fails
+        let p = prog("OP_1 OP_2 EQUALVERIFY OP_3");
+        let mut m = Model::with_stacks(&p, stack_of("cc"), stack_of("dd"));
+        assert_eq!(m.step(), StepResult::Ok);
+        assert_eq!(m.step(), StepResult::Ok);
+        assert_eq!(m.pc, 2);
+        for _ in 0..3 {
+            assert_eq!(kind_of(&m.step()), Kind::Fail);
+            assert_eq!(m.pc, 2);
+            assert_eq!(m.stack, stack_of("cc 01 02"));
+            assert_eq!(m.alt, stack_of("dd"));
+            assert_eq!(m.program, p);
+            assert!(!m.returned);
+            assert!(!m.done());
+        }
+        // a failing conditional does not splice
+        let p = prog("IF( OP_2 )ELSE( OP_3 ) OP_4");
+        let mut m = Model::new(&p);
+        assert_eq!(kind_of(&m.step()), Kind::Fail);
+        assert_eq!((m.pc, m.program.len()), (0, 2));
+        assert!(m.stack.is_empty() && m.alt.is_empty());
+        // a failing multi-operand opcode leaves deep stacks alone too
+        for (op, st) in [(113u8, "01 02 03 04 05"), (165, "01 02"), (122, "aa bb 05"), (128, "ff00 01"), (150, "07 e")] {
+            let (mut s, mut a) = (stack_of(st), stack_of("dd"));
+            assert_eq!(kind_of(&apply_opcode(op, &mut s, &mut a)), Kind::Fail, "op {}", op);
+            assert_eq!(s, stack_of(st));
+            assert_eq!(a, stack_of("dd"));
+        }
+    }
+
+    #[test]
+    fn unmodelled_cases() {
+        for op in [141u8, 142, 177, 178, 98, 80, 172] {
+            assert!(!is_modelled(op));
+            let mut m = Model::with_stacks(&[El::Op(op)], stack_of("01 02"), stack_of("03"));
+            assert_eq!(kind_of(&m.step()), Kind::Unm, "op {}", op);
+            assert_eq!((m.pc, m.returned), (0, false));
+            assert_eq!(m.stack, stack_of("01 02"));
+            assert_eq!(m.alt, stack_of("03"));
+        }
+        // VERIF
+        let p = vec![El::If { code: 101, pass: vec![El::Op(82)], fail: None }];
+        let mut m = Model::with_stacks(&p, stack_of("01"), vec![]);
+        assert_eq!(kind_of(&m.step()), Kind::Unm);
+        assert_eq!((m.pc, m.program.len()), (0, 1));
+        assert_eq!(m.stack, stack_of("01"));
+        // PICK with a 5-byte index operand (numerically 0)
+        let mut m = Model::with_stacks(&[El::Op(121)], stack_of("aa 0000000000"), vec![]);
+        assert_eq!(kind_of(&m.step()), Kind::Unm);
+        assert_eq!(m.pc, 0);
+        assert_eq!(m.stack, stack_of("aa 0000000000"));
+        // a lone 5-byte item: "needs 1" is satisfied, so the operand-length rule applies before
+        // the range check
+        let mut m = Model::with_stacks(&[El::Op(121)], stack_of("0000000000"), vec![]);
+        assert_eq!(kind_of(&m.step()), Kind::Unm);
+        // NUM2BIN above the resource guard
+        let (mut s, mut a) = (stack_of("01 ffffff7f"), vec![]);
+        assert_eq!(kind_of(&apply_opcode(128, &mut s, &mut a)), Kind::Unm);
+        assert_eq!(s, stack_of("01 ffffff7f"));
+    }
+
+    #[test]
+    fn return_and_done() {
+        let p = prog("OP_1 RETURN OP_2 VERIFY");
+        let mut m = Model::new(&p);
+        assert!(!m.done());
+        assert_eq!(m.step(), StepResult::Ok);
+        assert!(!m.done() && !m.returned);
+        assert_eq!(m.step(), StepResult::Ok);
+        assert!(m.done() && m.returned);
+        assert_eq!(m.pc, 2);
+        assert_eq!(m.step(), StepResult::Unmodelled("done".to_string()));
+        assert_eq!(m.stack, stack_of("01"));
+        assert_eq!(m.pc, 2);
+        // apply_opcode: Ok, nothing moves
+        let (mut s, mut a) = (stack_of("aa"), stack_of("bb"));
+        assert_eq!(apply_opcode(106, &mut s, &mut a), StepResult::Ok);
+        assert_eq!((s, a), (stack_of("aa"), stack_of("bb")));
+        // inside a taken branch
+        let mut m = Model::with_stacks(&prog("IF( OP_5 RETURN OP_6 ) OP_7"), stack_of("01"), vec![]);
+        assert_eq!(run(&mut m), StepResult::Ok);
+        assert!(m.done() && m.returned);
+        assert_eq!(m.stack, stack_of("05"));
+        // running off the end: done without returned
+        let mut m = Model::new(&prog("OP_1"));
+        assert_eq!(m.step(), StepResult::Ok);
+        assert!(m.done() && !m.returned);
+        assert_eq!(m.step(), StepResult::Unmodelled("done".to_string()));
+        // the empty program is done at once
+        assert!(Model::new(&[]).done());
+    }
+
+    #[test]
+    fn conditional_splices_one_element_per_step() {
+        let p = prog("IF( OP_2 OP_3 )ELSE( OP_4 ) OP_5");
+        let mut m = Model::with_stacks(&p, stack_of("01"), vec![]);
+        assert_eq!(m.step(), StepResult::Ok); // the conditional itself
+        assert_eq!(m.pc, 1);
+        assert!(m.stack.is_empty());
+        assert_eq!(m.program.len(), 4);
+        assert_eq!(m.program[0], p[0]);
+        assert_eq!(&m.program[1..], &prog("OP_2 OP_3 OP_5")[..]);
+        assert_eq!(m.step(), StepResult::Ok);
+        assert_eq!(m.stack, stack_of("02"));
+        assert_eq!(m.step(), StepResult::Ok);
+        assert_eq!(m.stack, stack_of("02 03"));
+        assert!(!m.done());
+        assert_eq!(m.step(), StepResult::Ok);
+        assert_eq!(m.stack, stack_of("02 03 05"));
+        assert!(m.done());
+        // not taken, no else: nothing spliced
+        let mut m = Model::with_stacks(&prog("IF( OP_2 OP_3 ) OP_5"), stack_of("e"), vec![]);
+        assert_eq!(m.step(), StepResult::Ok);
+        assert_eq!((m.pc, m.program.len()), (1, 2));
+        // a Fill push executes like its expansion
+        let mut m = Model::new(&[El::Push(76, Bytes::Fill { len: 3, seed: 1 })]);
+        assert_eq!(m.step(), StepResult::Ok);
+        assert_eq!(m.stack, stack_of("01203f"));
+    }
+}
